@@ -956,6 +956,11 @@ func ruleKill(c *Ctx) {
 						n++
 						continue
 					}
+					// a snapshot of Client.exited (set once runner.Wait has returned)
+					if exF := p.FieldObj(modPath, "Client", "exited"); exF != nil && SelField(info, r) == exF {
+						n++
+						continue
+					}
 					ok = false
 				}
 			case *ast.ValueSpec:
